@@ -57,6 +57,11 @@ def assume_rotation(V, R):
 def _from_vectors(V):
     I, st = V.I, V.st
     v1, v2 = vec(V, "a"), vec(V, "b")
+
+    def rand(I_, a, k):
+        st.event("hidden-state", "np.random.rand")
+        raise PathEnd("antiparallel branch (reads np.random): not covered by this unit")
+    st.ghost[("np", "random.rand")] = rand
     V.cover()
     out = V.call(f"{ROT}:rotation_matrix_from_vectors", [v1, v2])
     general = not any(e[0] == "hidden-state" for e in st.trace)
@@ -158,17 +163,80 @@ def _dihedral(V):
         return
     after = m.fields["_coords"].data
     V.ensure("frame/atoms-on-the-fixed-side-do-not-move", z3.And(*[Z(after[i][k]) == Z(before[i][k]) for i in (0, 1) for k in range(3)]))
-    eqs("post/moved-side-keeps-its-distances", V, [(d2(after[2], after[3]), d2(before[2], before[3])), (d2(after[1], after[2]), d2(before[1], before[2])),
-                                                   (d2(after[1], after[3]), d2(before[1], before[3]))])
-    (y0, x0) = recorded["args"][0]
-    # dihedral after the call, computed by the same real function
-    del recorded["args"][:]
-    V.method(m, "dihedral", list(atoms))
-    (y1, x1) = recorded["args"][0]
-    # rotation angle = target - old; with s, c its sine/cosine the new (x, y) must be a positive multiple of Rot(angle)(x, y)
+    # the moved side is rotated about the axis through atoms[1] by the matrix of rotation_matrix_from_axis(ax, target - old)
+    # in the column convention proved for that function: after = origin + R (before - origin)
     ang_terms = [v for k, v in st.ghost.items() if isinstance(k, tuple) and k[0] == "trig"]
     V.ensure("post/uses-one-rotation-angle", z3.BoolVal(len(ang_terms) == 1))
-    if len(ang_terms) == 1:
-        s, c, angz = ang_terms[0]
-        eqs("post/new-dihedral-is-old-plus-rotation-angle:collinear", V,
-            [(Z(x1) * (Z(y0) * Z(c) + Z(x0) * Z(s)) - Z(y1) * (Z(x0) * Z(c) - Z(y0) * Z(s)), z3.RealVal(0))])
+    if len(ang_terms) != 1:
+        return
+    s_, c_, angz = ang_terms[0]
+    (y0, x0) = recorded["args"][0]
+    V.ensure("post/rotation-angle-is-target-minus-current-dihedral", angz == Z(target) - Z(SV(z3.Real("dihedral"), "real")))
+    ax = [Z(before[2][k]) - Z(before[1][k]) for k in range(3)]
+    n = NP.sqrt_sumsq(I, [SV(a, "real") for a in ax])
+    u = [a / Z(n) for a in ax]
+    W = [[0, -u[2], u[1]], [u[2], 0, -u[0]], [-u[1], u[0], 0]]
+    WW = [[sum(W[i][k] * W[k][j] for k in range(3)) for j in range(3)] for i in range(3)]
+    R = [[(1 if i == j else 0) + Z(s_) * W[i][j] + (1 - Z(c_)) * WW[i][j] for j in range(3)] for i in range(3)]
+    o = [Z(before[1][k]) for k in range(3)]
+    pairs = []
+    for i in (2, 3):
+        for r in range(3):
+            pairs.append((Z(after[i][r]), o[r] + sum(R[r][k] * (Z(before[i][k]) - o[k]) for k in range(3))))
+    eqs("post/moved-side-is-rotated-right-handed-about-the-central-bond-by-the-angle", V, pairs)
+
+
+@P.unit(f"{M.CLS['CartesianGeometry']}.dihedral", name="lemma: a right-handed rotation of the far side by phi adds phi to dihedral()")
+def _dihedral_lemma(V):
+    """the real dihedral() formula, evaluated in a frame where the central bond is the +z axis (dihedral angles are
+    invariant under rigid motions -- assumed, textbook), before and after rotating atom 4 about +z by phi"""
+    I, st = V.I, V.st
+    m = M.mk_mol(V, "Molecule", 4, ((0, 1), (1, 2), (2, 3)))
+    p = [V.sym(f"p{k}", "real") for k in range(3)]
+    q = [V.sym(f"q{k}", "real") for k in range(3)]
+    L = V.sym("L", "real")
+    V.assume(L.z > 0)
+    s_, c_ = V.sym("s", "real"), V.sym("c", "real")
+    V.assume(s_.z * s_.z + c_.z * c_.z == 1)
+    rec = []
+    st.ghost[("np", "arctan2")] = lambda I_, a, k: rec.append((a[0], a[1])) or st.fresh_sv("d", "real")
+    atoms = list(m.fields["_atoms"].items)
+    V.cover()
+    m.fields["_coords"] = NP.mk([p, [0.0, 0.0, 0.0], [0.0, 0.0, L], q])
+    V.method(m, "dihedral", atoms, qual=f"{M.CLS['CartesianGeometry']}.dihedral")
+    q2 = [SV(q[0].z * c_.z - q[1].z * s_.z, "real"), SV(q[0].z * s_.z + q[1].z * c_.z, "real"), q[2]]
+    m.fields["_coords"] = NP.mk([p, [0.0, 0.0, 0.0], [0.0, 0.0, L], q2])
+    V.method(m, "dihedral", atoms)
+    V.ensure("lemma/dihedral-evaluated-twice", z3.BoolVal(len(rec) == 2))
+    if len(rec) == 2:
+        (y0, x0), (y1, x1) = rec
+        eqs("lemma/(x,y)-of-the-dihedral-is-rotated-by-phi", V, [(Z(x1), Z(x0) * c_.z - Z(y0) * s_.z), (Z(y1), Z(y0) * c_.z + Z(x0) * s_.z)])
+
+
+@P.unit(f"{M.CLS['ConformerEnsemble']}.center_at_atom", name="ensemble translate/rotate/center_at_atom are rigid per conformer",
+        functions=[f"{M.CLS['ConformerEnsemble']}.center_at_atom", f"{M.CLS['ConformerEnsemble']}.translate", f"{M.CLS['ConformerEnsemble']}.rotate"])
+def _ens_rigid(V):
+    I, st = V.I, V.st
+    e = M.mk_ens(V, 2, 3, bonds=((0, 1), (1, 2)))
+    before = NP._copy(e.fields["_coords"].data)
+    op = V.choose(["center_at_atom", "rotate", "translate"], "op")
+    V.cover()
+    if op == "center_at_atom":
+        j = V.choose([0, 2], "atom")
+        out = V.method(e, "center_at_atom", [e.fields["_atoms"].items[j]], qual=f"{M.CLS['ConformerEnsemble']}.center_at_atom")
+        after = e.fields["_coords"].data
+        V.ensure("post/returns", z3.BoolVal(out.returned))
+        V.ensure("post/chosen-atom-at-the-origin-in-every-conformer", z3.And(*[Z(after[c][j][k]) == 0 for c in range(2) for k in range(3)]))
+    elif op == "rotate":
+        R = [[V.sym(f"r{i}{j}", "real") for j in range(3)] for i in range(3)]
+        assume_rotation(V, R)
+        out = V.method(e, "rotate", [NP.mk(R)], qual=f"{M.CLS['ConformerEnsemble']}.rotate")
+        after = e.fields["_coords"].data
+        V.ensure("post/returns", z3.BoolVal(out.returned))
+    else:
+        out = V.method(e, "translate", [vec(V, "t")], qual=f"{M.CLS['ConformerEnsemble']}.translate")
+        after = e.fields["_coords"].data
+        V.ensure("post/returns", z3.BoolVal(out.returned))
+    if out.returned:
+        eqs("post/distances-unchanged-in-every-conformer", V,
+            [(d2(after[c][i], after[c][j]), d2(before[c][i], before[c][j])) for c in range(2) for i in range(3) for j in range(i + 1, 3)])
